@@ -11,6 +11,7 @@ case "$PROP" in
   C39) BIN=fs-sim;;
   *) echo "unknown $PROP"; exit 2;;
 esac
+(cd /verif/sim && cargo build --release --offline -p $BIN >/dev/null 2>&1) || { echo "build failed"; exit 2; }
 B=$(mktemp -d /tmp/sweep-bin.XXXXXX)
 cp /verif/target/release/$BIN $B/ || exit 2
 mkdir -p replays-bg evidence-bg
